@@ -324,7 +324,9 @@ def merchant_history(draw, idx):
         pays.append([draw(payment)[0], draw(st.sampled_from(months)), draw(st.integers(1, 28))])
     tags = draw(st.lists(st.sampled_from(TAGS), max_size=2))
     special = draw(st.integers(0, 7)) == 0
-    return {'name': f'M{idx}', 'category': cat[0], 'subcategory': cat[1], 'payments': pays, 'tags': tags,
+    # an ordinary tag may come from a tag-only rule that applies to SOME payments only (often not the first): `tags` is the merchant's union
+    tag_on = {t: draw(st.lists(st.integers(0, n - 1), min_size=1, max_size=2)) for t in tags if draw(st.booleans())}
+    return {'name': f'M{idx}', 'category': cat[0], 'subcategory': cat[1], 'payments': pays, 'tags': tags, 'tag_on': tag_on,
             'special_on': draw(st.lists(st.integers(0, n - 1), min_size=1, max_size=2)) if special else [], 'special_tag': draw(st.sampled_from(SPECIAL))}
 
 
@@ -341,7 +343,7 @@ def build_txns(merchants):
         for m in merchants:
             if i < len(m['payments']):
                 a, mo, day = m['payments'][i]
-                tags = list(m['tags']) + ([m['special_tag']] if i in m['special_on'] else [])
+                tags = [t for t in m['tags'] if t not in m.get('tag_on', {}) or i in m['tag_on'][t]] + ([m['special_tag']] if i in m['special_on'] else [])
                 txns.append({'amount': a, 'date': pay_date(mo, day), 'merchant': m['name'], 'category': m['category'], 'subcategory': m['subcategory'],
                              'description': m['name'], 'raw_description': m['name'] + ' RAW', 'source': 'Bank', 'tags': tags})
     return txns
